@@ -23,7 +23,7 @@ LEVEL_TEXT = (
     "compared with the documented rules written as an independent reference; depth<=1 pairs are also pushed through Graph(strict_types=True) at "
     "each edge position of a three-node chain."
 )
-LEVEL_NOTE = "pairs whose verdict the documented rules do not fix (an incoming Any against a concrete type, at any depth) are excluded and counted"
+LEVEL_NOTE = 'pairs whose verdict the documented rules do not fix (an incoming Any against a concrete type, at any depth) are excluded and counted; flaw injection on template, DAG-shape and depth-2 bases, every flawed graph also with reversed node lists, both construction paths; conflict rule enumerated for 3 producers (every exclusive pair, every order), two gates, three-target gates; systematic unions in the type universe'
 RULE = "base programs x flaw classes x positions; type universe x ordered pairs; distinct_nontrivial = distinct (base, flaw, position) + distinct type pairs with a determined verdict"
 ASSUMPTIONS = ["'illegal names' are those the graph constructor judges (node, output, graph names; graph-node name colliding with an output)", "flaws are single: exactly one mistake per injected program"]
 
